@@ -12,6 +12,8 @@ def main(argv):
     budget = 1500 if tier == "quick" else 6 * 3600
     faulthandler.dump_traceback_later(budget, exit=False)
     sys.setrecursionlimit(20000)
+    if hasattr(sys, "set_int_max_str_digits"):
+        sys.set_int_max_str_digits(0)    # witnesses may hold integers of hundreds of thousands of bits
     return core.run_worker(prop, tier, int(seed), int(shard), int(nshards), out)
 
 
